@@ -236,6 +236,8 @@ def binop(I, op, a, b):
     if isinstance(a, STimedelta) and isinstance(b, SDateTime) and op is ast.Add:
         return binop(I, op, b, a)
     if isinstance(a, SDateTime) and isinstance(b, SDateTime) and op is ast.Sub:
+        if a.is_date != b.is_date:
+            raise PyExc('TypeError', 'unsupported operand type(s) for -: date and datetime')
         return STimedelta(simp_int(I.binop(ast.Sub, a.ord, b.ord)), simp_int(I.binop(ast.Sub, a.sec, b.sec)))
     if isinstance(a, STimedelta) and isinstance(b, STimedelta):
         if op is ast.Add:
@@ -258,6 +260,8 @@ def binop(I, op, a, b):
 def eq(I, a, b):
     L = _L()
     if isinstance(a, SDateTime) and isinstance(b, SDateTime):
+        if a.is_date != b.is_date:
+            return False          # a date never equals a datetime
         if is_conc(a.ord, a.sec, b.ord, b.sec):
             return (a.ord, a.sec) == (b.ord, b.sec)
         return z3.And(T(I, a.ord) == T(I, b.ord), T(I, a.sec) == T(I, b.sec))
@@ -272,6 +276,8 @@ def eq(I, a, b):
 def order(I, op, a, b):
     L = _L()
     if isinstance(a, SDateTime) and isinstance(b, SDateTime):
+        if a.is_date != b.is_date:
+            raise PyExc('TypeError', "can't compare datetime.datetime to datetime.date")
         ta, tb = dt_total(I, a), dt_total(I, b)
         return {ast.Lt: ta < tb, ast.LtE: ta <= tb, ast.Gt: ta > tb, ast.GtE: ta >= tb}[op]
     if isinstance(a, STimedelta) and isinstance(b, STimedelta):
